@@ -33,11 +33,75 @@ theorem tyWf_toTy (A : App) (hwf : A.wf = true) (C : ClassDef) (hC : C ∈ A.all
   simp only [Bool.and_eq_true] at this
   simp only [ClassDef.toTy, tyWf, occWf_default, this.1.1.2, this.1.2, Bool.and_self]
 
+/-! ### same-namespace chains: the general denotation is the single-namespace one -/
+
+theorem fieldNs_same (A : App) : ∀ (f : Nat) (D : ClassDef), chainOk A.iface f D = true →
+    chainSameNs A.iface f D = true → fieldNs A f D = List.replicate D.fields.length D.ns := by
+  intro f
+  induction f with
+  | zero => intro D h; simp [chainOk] at h
+  | succ f ih =>
+    intro D hc hs
+    unfold chainOk at hc
+    unfold chainSameNs at hs
+    simp only [fieldNs]
+    cases hb : D.base with
+    | none =>
+      have hp : parentOf A.iface D = none := by simp [parentOf, hb]
+      simp [hp, ownFields, List.map_const']
+    | some b =>
+      rw [hb] at hc hs
+      dsimp only at hc hs
+      cases hf : Registry.find? A.iface.classes b with
+      | none => rw [hf] at hc; cases hc
+      | some P =>
+        rw [hf] at hc hs
+        simp only [Bool.and_eq_true, decide_eq_true_eq] at hc hs
+        obtain ⟨⟨hlen, _⟩, hch⟩ := hc
+        have hp : parentOf A.iface D = some P := by simp [parentOf, hb, hf]
+        simp only [hp, ownFields, ih P hch hs.2, hs.1, List.map_const', List.length_drop]
+        rw [List.replicate_append_replicate]
+        congr 1
+        omega
+
+structure SameNs (A : App) : Prop where
+  ok : ∀ D ∈ A.allClasses, chainOk A.iface (A.iface.classes.length + 1) D = true ∧
+    chainSameNs A.iface (A.iface.classes.length + 1) D = true
+
+mutual
+  theorem denoteG_same (A : App) (h : SameNs A) : ∀ (t : Ty) (ctx : Text), (∀ D ∈ nested t, D ∈ A.allClasses) →
+      denoteG A ctx t = denote (primFacetsA A) A.tns ctx t
+    | .prim p o, ctx, _ => by simp [denoteG, denote]
+    | .obj name ns b fields o, ctx, hn => by
+      have hD : ({ name := name, ns := ns, base := b, fields := fields } : ClassDef) ∈ A.allClasses := hn _ (by simp [nested])
+      have := fieldNs_same A _ _ (h.ok _ hD).1 (h.ok _ hD).2
+      simp only [denoteG, denote, this]
+      rw [denoteFieldsG_same A h fields ns (fun D hD' => hn D (by simp [nested, hD']))]
+    | .arr m e o, ctx, hn => by
+      simp only [denoteG, denote]
+      rw [denoteG_same A h e ctx (fun D hD => hn D (by simpa [nested] using hD))]
+
+  theorem denoteFieldsG_same (A : App) (h : SameNs A) : ∀ (fs : List (Text × Ty)) (ns : Text),
+      (∀ D ∈ nestedFields fs, D ∈ A.allClasses) →
+      denoteFieldsG A (List.replicate fs.length ns) fs = denoteFields (primFacetsA A) A.tns ns fs
+    | [], ns, _ => by simp [denoteFieldsG, denoteFields]
+    | (k, t) :: r, ns, hn => by
+      simp only [List.length_cons, List.replicate_succ, denoteFieldsG, denoteFields]
+      rw [denoteG_same A h t ns (fun D hD => hn D (by simp [nestedFields, hD])),
+        denoteFieldsG_same A h r ns (fun D hD => hn D (by simp [nestedFields, hD]))]
+end
+
+theorem sameNs_of (A : App) (hwf : A.wf = true) (hs : A.sameNsChains = true) : SameNs A := by
+  have hc := closed_of_wf A hwf
+  unfold App.sameNsChains at hs
+  rw [List.all_eq_true] at hs
+  exact ⟨fun D hD => ⟨hc.chain D hD, hs D hD⟩⟩
+
 /-- **A** for documents: a document whose root is the element of a registered class is valid against
     the generated schema iff it is valid for the type the class denotes -/
 theorem valid_gen (A : App) (hwf : A.wf = true) (C : ClassDef) (hC : C ∈ A.iface.classes) (x : Node)
     (hkey : nodeKey x = (C.ns, C.name)) :
-    (gen A).valid x = validS (denote (primFacetsA A) A.tns C.ns (ClassDef.toTy C)) false x := by
+    (gen A).valid x = validS (denoteG A C.ns (ClassDef.toTy C)) false x := by
   have hc := closed_of_wf A hwf
   have hCa : C ∈ A.allClasses := List.mem_append.mpr (Or.inl hC)
   have hl := hc.cplx C hCa
@@ -69,9 +133,21 @@ theorem encode_obj_shape (F : Facts08) (cfg : Cfg) (I : Iface) (ns name cname cn
       [.elem ns name [] none (membersToParent F cfg I cns fields vs)] := by
   simp [encode, toParent, polyTarget]
 
+/-- on same-namespace chains -/
+theorem valid_gen_same (A : App) (hwf : A.wf = true) (hs : A.sameNsChains = true) (C : ClassDef) (hC : C ∈ A.iface.classes)
+    (x : Node) (hkey : nodeKey x = (C.ns, C.name)) :
+    (gen A).valid x = validS (denote (primFacetsA A) A.tns C.ns (ClassDef.toTy C)) false x := by
+  have hCa : C ∈ A.allClasses := List.mem_append.mpr (Or.inl hC)
+  rw [valid_gen A hwf C hC x hkey, denoteG_same A (sameNs_of A hwf hs) (ClassDef.toTy C) C.ns (by
+    intro D hD
+    simp only [ClassDef.toTy, nested, List.mem_cons] at hD
+    rcases hD with e | e
+    · subst e; exact hCa
+    · exact allClasses_closed A C hCa D e)]
+
 /-- **emitted_valid**: the message document the encoder writes for a conformant instance of a
     registered class is valid against the schema generated for the application -/
-theorem emitted_valid_gen (A : App) (G : A.leaf.Good) (hwf : A.wf = true) (cfg : Cfg)
+theorem emitted_valid_gen (A : App) (G : A.leaf.Good) (hwf : A.wf = true) (hsn : A.sameNsChains = true) (cfg : Cfg)
     (C : ClassDef) (hC : C ∈ A.iface.classes) (vs : List (Text × Val))
     (hc : conformsOne (ClassDef.toTy C) (.obj C.name vs) = true)
     (hr : leavesOne (leafCond A) (ClassDef.toTy C) (.obj C.name vs) = true) :
@@ -80,7 +156,7 @@ theorem emitted_valid_gen (A : App) (G : A.leaf.Good) (hwf : A.wf = true) (cfg :
   obtain ⟨x, hx, hk, hv⟩ := emitted_validS A.leaf (primFacetsA A) (leafCond A) (fun p v h1 h2 => leaf_simpleOkA A G p v h1 h2)
     cfg A.iface (ClassDef.toTy C) (.obj C.name vs) C.ns C.name hc (tyWf_toTy A hwf C hCa) hr
   refine ⟨x, hx, ?_⟩
-  rw [valid_gen A hwf C hC x hk]
+  rw [valid_gen_same A hwf hsn C hC x hk]
   have hshape := encode_obj_shape A.leaf cfg A.iface C.ns C.name C.name C.ns C.base C.fields {} vs
   simp only [ClassDef.toTy] at hx hv ⊢
   rw [hshape] at hx
